@@ -54,6 +54,8 @@ def lp_line(i, c):
 def shcase(c):
     if "err" in c:
         return "CFlagD false"
+    if c["kind"] == "layout":
+        return f"CFlagD {'true' if c['ok'] else 'false'}"
     if c["kind"] == "law":
         return f"CFlagD {'true' if c['ok'] and c['distinct'] >= 2 else 'false'}"
     return (f'CShape "{c["name"]}" {nl(c["lanes"])} {nl(c["ss"])} {nll(c["batches"])} {nl(c["event"])} '
@@ -164,11 +166,12 @@ def run(ctx):
     else:
         bad += [(sh_idx[i], a, s, r) for (i, a, s, r) in res["bad"]]
     bad.sort()
-    sig_seen = Counter((c["name"], tuple(c["kws"]), c["kind"]) for c in cases if "err" not in c)
+    sig_seen = Counter((c["name"], tuple(c["kws"]), c["kind"]) for c in cases if "err" not in c and "kws" in c)
     nt = len({(c["name"], tuple(c["kws"]), json.dumps(c.get("params")), json.dumps(c.get("value"))) for c in cases
               if c["kind"] == "lp" and "err" not in c}) + \
         len({(c["name"], tuple(c["kws"]), json.dumps([c["ss"], c["lanes"], c.get("batches"), c["mapped"]])) for c in cases
              if c["kind"] == "shape" and "err" not in c and (c["ss"] or c["lanes"] or any(c.get("batches", [])))}) + \
+        len([c for c in cases if c["kind"] == "layout" and "err" not in c]) + \
         len([c for c in cases if c["kind"] == "law" and "err" not in c])
     pv = sorted(c["pvalue"] for c in cases if c["kind"] == "law" and "pvalue" in c)
     return {"cases": cases, "bad": bad, "worker_errs": worker_errs, "coq_errs": coq_errs,
@@ -179,7 +182,7 @@ def run(ctx):
                                  "families on integer / half-integer shapes, zipf at powers 2 and 4), eager == jit == assess weight, and |logpdf - closed form| <= 1e-3 + 1e-4|logpdf| "
                                  "proved by the Interval tactic on the model's reflected real expression (BAD = the strict converse proved).  shape: result shape and dtype of seeded draws with "
                                  "sample_shape in {(), (1,), (3,), (2,3)}, modular_vmap nests {(), (2,), (4,), (3,2)} by axis_size or over a parameter, and a batched parameter, compared "
-                                 "with lanes ++ sample_shape ++ broadcast batch ++ event and the documented dtype.  law: 4000 seeded draws by sample_shape, by modular_vmap, by a 2-D "
+                                 "with lanes ++ sample_shape ++ broadcast batch ++ event and the documented dtype.  layout: normal / laplace / categorical / multivariate_normal with a parameter mapped along axis 0, 1 or 2 and near-deterministic parameters: lane i equals lane i's parameters.  law: 4000 seeded draws by sample_shape, by modular_vmap, by a 2-D "
                                  "sample_shape and by vmap x sample_shape against the scipy reference (KS for continuous, chi-square for discrete, whitening for multivariate normal, "
                                  "marginals for dirichlet / multinomial); a case fails only if p < 1e-6 or draws repeat across lanes.  non-trivial = distinct lp input, non-scalar shape "
                                  "configuration, or law case",
@@ -191,6 +194,7 @@ def run(ctx):
                                        "lp_by_name": Counter(c["name"] for c in cases if c["kind"] == "lp"),
                                        "law_modes": Counter(c["mode"] for c in cases if c["kind"] == "law"),
                                        "law_min_pvalues": pv[:5],
+                                       "layout": Counter(f"{c['name']}:axis{c.get('axis')}" for c in cases if c["kind"] == "layout"),
                                        "shape_configs": Counter(f"ss{len(c['ss'])}/lanes{len(c['lanes'])}/{'mapped' if c['mapped'] else 'axis_size'}"
                                                                 for c in cases if c["kind"] == "shape"),
                                        "errors": Counter(c.get("err", "")[:90] for c in cases if "err" in c)},
